@@ -77,14 +77,17 @@ theorem partial_bounded (spec : AbsSpec) (cfg : Cfg) (hlim : Gen.MAX_FRAMES_PER_
   exact (feedAll_inv hlim reads _ PanicInv_init).2
 
 /-- With MAXMSGSIZE = m ≥ 0, between reads an open (unencrypted) connection holds fewer than
-`max 64 (9 + m)` undecoded bytes: an incomplete greeting or one incomplete frame. (`hlim`: the engine's own
-frame-count limit is within the frame container's capacity — without it the model engine can reach the
-`panicked` state, see `Rzmq.accumulator_bounded_false`.) -/
+`max 64 (9 + max m HANDSHAKE_FRAME_LIMIT)` undecoded bytes: an incomplete greeting or one incomplete frame
+(before the data phase the frame-size limit in force is the handshake limit `max m HANDSHAKE_FRAME_LIMIT`);
+in the data phase fewer than `9 + m`. (`hlim`: the engine's own frame-count limit is within the frame
+container's capacity — without it the model engine can reach the `panicked` state, see
+`Rzmq.accumulator_bounded_false`.) -/
 theorem accumulator_bounded (spec : AbsSpec) (hw : WellBehaved spec) (cfg : Cfg) (m : Nat)
     (hm : cfg.maxMsgSize = (m : Int)) (hlim : Gen.MAX_FRAMES_PER_MESSAGE ≤ cfg.frameLimit)
     (reads : List (Nat × Bytes)) :
     let s := (feedAll spec cfg Eng.init reads).1
-    s.phase ≠ .closed → s.sealed = false → s.acc.length < max 64 (9 + m) := by
+    s.phase ≠ .closed → s.sealed = false →
+      s.acc.length < max 64 (9 + max m Gen.HANDSHAKE_FRAME_LIMIT) ∧ (s.phase = .data → s.acc.length < 9 + m) := by
   exact accumulator_bounded_of_frameLimit hw m hm hlim reads
 
 /-- every error closes the connection, and a closed engine emits nothing more -/
